@@ -62,7 +62,8 @@ def main():
                 out = os.path.join(HERE, "seeded", name)
                 os.makedirs(out, exist_ok=True)
                 for f in ("patch.diff", "demo.py"):
-                    shutil.copy(os.path.join(d, f), os.path.join(out, f))
+                    if os.path.abspath(d) != os.path.abspath(out):
+                        shutil.copy(os.path.join(d, f), os.path.join(out, f))
                 meta.update({"breaks_property": pid, "confirmed_by_me": {"suite_with_change": suite, "demo_exit_with_change": bad.returncode, "demo_exit_without_change": good.returncode, "how": "patch applied to a scratch copy of /repo/pdfminer (VERIF_REPO); suite and demo run with PYTHONPATH=<copy>"}, "checks": verdicts})
                 json.dump(meta, open(os.path.join(out, "meta.json"), "w"), indent=1)
         finally:
